@@ -22,6 +22,7 @@ def run(rep):
     rep.assume("the ET reader (C11) returns the right array for each iteration it is asked for")
     R.row_index_provenance(rep)
     R.cache_fill_provenance(rep)
+    R.iteration_labels(rep)
     R.template_agreement(rep)
     R.one_append_per_column(rep)
     rep.floor("row-index-provenance", 5)
